@@ -1104,6 +1104,6 @@ def run(ctx):
     if ctx.replay:
         if replay(ctx) is not False:
             return
-    run_tree_stream(ctx, 110 if quick else 1500)
-    run_lock_stream(ctx, 24 if quick else 250)
+    run_tree_stream(ctx, 130 if quick else 1500)
+    run_lock_stream(ctx, 26 if quick else 250)
     run_git_stream(ctx, 16 if quick else 150)
